@@ -466,6 +466,9 @@ pub(crate) fn validate_default_for_adjacent_enum(
         (VariantDetails::Tuple(tup), Some(content_value)) => {
             validate_default_tuple(tup, type_space, content_value)
         }
+        (VariantDetails::Item(type_id), Some(content_value)) => {
+            validate_type_id(type_id, type_space, content_value).ok()
+        }
         (VariantDetails::Struct(props), Some(content_value)) => {
             validate_default_struct_props(props, type_space, content_value)
         }
